@@ -4,7 +4,7 @@
    alg_distance.go, line.go, alg_point_in_ring.go over Q); reference semantics: Base/Planar.v (inG). *)
 From Coq Require Import QArith List Bool.
 From SF Require Import Base.GeomAST Base.QKernel Base.Planar Model.Intersects Model.Distance
-  Proofs.Intersects_proofs Proofs.Distance_proofs.
+  Proofs.Intersects_proofs Proofs.Distance_proofs Proofs.Distance_lower.
 Import ListNotations.
 Open Scope Q_scope.
 
@@ -41,17 +41,122 @@ Print Assumptions intersects_empty.
 
 (* ---- distance kernels ---- *)
 
-(* distBetweenXYAndLine (squared): a lower bound for the distance to every point of the segment,
-   attained at a point of the segment *)
+(* distBetweenXYAndLine (squared; the code after fix F91: perpendicular distance by the cross
+   product when the foot is inside the segment): a lower bound for the distance to every point
+   of the segment, attained at a point of the segment *)
 Theorem pt_seg_d2_spec : forall (p a b : pt), ~ pt_eq a b ->
   (forall q, on_seg (a, b) q = true -> d2_xy_line p (a, b) <= d2_xy p q) /\
   (exists q, on_seg (a, b) q = true /\ d2_xy_line p (a, b) == d2_xy p q).
 Proof.
   intros p a b H. split.
   - intros q Hq. apply d2_xy_line_le; assumption.
-  - exists (closest_on_line p (a, b)). split; [apply closest_on_seg; exact H | reflexivity].
+  - exists (closest_on_line p (a, b)). split; [apply closest_on_seg; exact H | apply d2_xy_line_closest; exact H].
 Qed.
 Print Assumptions pt_seg_d2_spec.
+
+(* distBetweenLineAndLine (squared), for non-degenerate segments: the value is attained by an end
+   point of one segment and a point of the other, it is symmetric, it is zero only if the segments
+   meet, and for segments WITHOUT a common point it is a lower bound of the distance between any
+   two of their points (the constrained minimum of the convex quadratic is on the boundary of the
+   unit square of the two segment coordinates).  Together: the exact squared distance of two disjoint segments. *)
+Theorem seg_seg_d2_spec : forall s t : seg,
+  ~ pt_eq (fst s) (snd s) -> ~ pt_eq (fst t) (snd t) ->
+  (exists p q, on_seg s p = true /\ on_seg t q = true /\ d2_line_line s t == d2_xy p q) /\
+  d2_line_line s t == d2_line_line t s /\
+  (d2_line_line s t == 0 -> exists w, on_seg s w = true /\ on_seg t w = true) /\
+  ((forall w, ~ (on_seg s w = true /\ on_seg t w = true)) ->
+   forall p q, on_seg s p = true -> on_seg t q = true -> d2_line_line s t <= d2_xy p q).
+Proof.
+  intros s t Hs Ht. split; [apply d2_line_line_attained; assumption|].
+  split; [apply d2_line_line_sym|]. split; [apply d2_line_line_zero; assumption|].
+  destruct s as [a b], t as [c d]. intros Hdis p q Hp Hq. apply seg_seg_d2_lower; assumption.
+Qed.
+Print Assumptions seg_seg_d2_spec.
+
+(* ---- the search ---- *)
+
+(* searchBody: on a stream of records in priority order (sorted by the squared distance [key] of
+   the record's box to the query box, which is a lower bound of the part distance [val]),
+   stopping at the first record with key > best returns the minimum over the whole stream.
+   This is what lets the model take the minimum over all pairs of parts (with C11: PrioritySearch
+   enumerates all records in that order). *)
+Theorem pruned_search_is_min : forall (R : Type) (key val : R -> Q) (recs : list R) (best : option Q),
+  Sorted.StronglySorted (fun r s => key r <= key s) recs ->
+  (forall r, In r recs -> key r <= val r) ->
+  pruned_search key val recs best = full_search val recs best.
+Proof. exact @pruned_search_is_min. Qed.
+Print Assumptions pruned_search_is_min.
+
+(* the lower bound used by the pruning: boxes of parts against the parts themselves (and, with
+   the boxes of all control points, the envelope bound of the property): in the search branch
+   Distance is never below the distance of the boxes *)
+Theorem distance_ge_envelope_distance : forall (a b : geom) (ea eb : box) (d : Q),
+  parts_box a = Some ea -> parts_box b = Some eb -> dist2 a b = Some d ->
+  intersects a b = false \/ (no_polys a = true /\ no_polys b = true /\ lines_wf a = true /\ lines_wf b = true) ->
+  box_d2 ea eb <= d.
+Proof.
+  intros a b ea eb d Ea Eb Hd [H|[Na [Nb [Wa Wb]]]].
+  - exact (distance_ge_envelope_search a b ea eb d Ea Eb H Hd).
+  - exact (distance_ge_envelope_lineal a b ea eb d Na Nb Wa Wb Ea Eb Hd).
+Qed.
+Print Assumptions distance_ge_envelope_distance.
+
+(* ---- Distance ---- *)
+Theorem distance_sym : forall a b : geom,
+  match dist2 a b, dist2 b a with
+  | Some x, Some y => x == y
+  | None, None => True
+  | _, _ => False
+  end.
+Proof. exact distance_sym. Qed.
+Print Assumptions distance_sym.
+
+(* undefined exactly when the search has nothing to compare, in particular for an empty operand *)
+Theorem distance_undefined_iff : forall a b : geom,
+  (dist2 a b = None <->
+   intersects a b = false /\ ((part_xys a = [] /\ part_lines a = []) \/ (part_xys b = [] /\ part_lines b = []))) /\
+  (is_empty a = true \/ is_empty b = true -> dist2 a b = None).
+Proof. intros a b. split; [apply dist2_none_iff | apply distance_undefined_of_empty]. Qed.
+Print Assumptions distance_undefined_iff.
+
+(* zero exactly when intersecting (operands without areal parts: by completeness of Intersects);
+   for all operands: intersecting gives zero, and a zero distance has a common point as witness *)
+Theorem distance_zero_iff_intersects : forall a b : geom,
+  no_polys a = true -> no_polys b = true -> lines_wf a = true -> lines_wf b = true ->
+  ((exists d, dist2 a b = Some d /\ d == 0) <-> intersects a b = true).
+Proof. exact distance_zero_iff_intersects. Qed.
+Print Assumptions distance_zero_iff_intersects.
+
+Theorem distance_zero_witness : forall (a b : geom) (d : Q),
+  (intersects a b = true -> dist2 a b = Some 0) /\
+  (dist2 a b = Some d -> d == 0 ->
+   intersects a b = true \/ exists p, inG a p = true /\ inG b p = true).
+Proof.
+  intros a b d. split.
+  - intros H. unfold dist2. rewrite H. reflexivity.
+  - apply distance_zero_witness.
+Qed.
+Print Assumptions distance_zero_witness.
+
+(* "equals the minimum Euclidean distance between the two point sets", on the model (squared):
+   attained by two points of the operands and a lower bound for every pair of points.
+   Proved for operands without areal parts.  The full statement (any operands with closed rings
+   and valid polygons) needs completeness of Intersects for areal operands and is covered by the
+   correspondence against dist2_ref:
+     distance_is_min : dist2 a b = Some d -> (exists p q, inG a p /\ inG b q /\ d == d2_xy p q) /\
+                       (forall p q, inG a p -> inG b q -> d <= d2_xy p q) *)
+Theorem distance_is_min_lineal_partial : forall (a b : geom) (d : Q),
+  no_polys a = true -> no_polys b = true -> lines_wf a = true -> lines_wf b = true ->
+  dist2 a b = Some d ->
+  (exists p q, inG a p = true /\ inG b q = true /\ d == d2_xy p q) /\
+  (forall p q, inG a p = true -> inG b q = true -> d <= d2_xy p q).
+Proof. exact distance_is_min_lineal. Qed.
+Print Assumptions distance_is_min_lineal_partial.
+
+(* the final panic of the Intersects switch is unreachable *)
+Theorem intersects_never_panics : forall a b : geom, intersects_panics a b = false.
+Proof. exact intersects_never_panics. Qed.
+Print Assumptions intersects_never_panics.
 
 (* ---- hypotheses are satisfiable by non-trivial values ---- *)
 Definition qv (x y : Z) : vtx Q := Build_vtx (inject_Z x) (inject_Z y) 0 0.
@@ -68,3 +173,15 @@ Example ex_lineal_hyp :
   no_polys a = true /\ no_polys b = true /\ lines_wf a = true /\ lines_wf b = true /\
   inG a (2, 2) = true /\ inG b (2, 2) = true /\ intersects a b = true.
 Proof. vm_compute. repeat split; reflexivity. Qed.
+
+Example ex_dist :
+  dist2 ex_square (GPoint (MkPoint XY (Some (qv 7 8)))) = Some 25
+  /\ dist2 ex_line (GLine (MkLine XY [])) = None
+  /\ match dist2 (GPoint (MkPoint XY (Some (qv 0 2)))) (GLine (MkLine XY [qv 1 0; qv 3 4])) with
+     | Some d => d == 16 # 5 | None => False end.
+Proof. vm_compute. auto. Qed.
+(* the stream is sorted by key, every key is below its value; the search stops at key 3 > best 2 *)
+Example ex_pruned :
+  pruned_search (fun r => fst r) (fun r => snd r) [(0, 4); (1, 2); (3, 9); (5, 6)] None = Some 2
+  /\ full_search (fun r : Q * Q => snd r) [(0, 4); (1, 2); (3, 9); (5, 6)] None = Some 2.
+Proof. vm_compute. auto. Qed.
